@@ -70,6 +70,23 @@ func typeSubjectSet(fn *ssa.Function, p *ssa.Parameter) map[ssa.Value]bool {
 	for changed {
 		changed = false
 		core.EachInstr(fn, func(i ssa.Instruction) {
+			// a parameter captured by a closure lives in a cell: loads of the cell are the parameter
+			if ld, ok := i.(*ssa.UnOp); ok && ld.Op == token.MUL && !set[ld] {
+				if cell := resolveCell(ld.X); cell != nil {
+					stores := cellStores(cell)
+					all := len(stores) > 0
+					for _, sv := range stores {
+						if !set[sv] {
+							all = false
+						}
+					}
+					if all {
+						set[ld] = true
+						changed = true
+					}
+				}
+				return
+			}
 			phi, ok := i.(*ssa.Phi)
 			if !ok || set[phi] {
 				return
@@ -206,6 +223,33 @@ func (c *Ctx) inferModel(rule string) *inferModel {
 		return nil
 	}
 	m := &inferModel{fn: fn, typeParam: tp, subj: typeSubjectSet(fn, tp), c: c}
+	// the type being translated, as seen by transparent helpers that are handed it at every call site
+	for changed := true; changed; {
+		changed = false
+		for _, h := range c.familyFuncs(fn) {
+			if h == fn || h.Parent() != nil || !c.transparent(h) {
+				continue
+			}
+			for _, q := range h.Params {
+				if m.subj[q] || !isNamed(q.Type(), "reflect", "Type") {
+					continue
+				}
+				args := c.P.ArgsFor(q)
+				all := len(args) > 0
+				for _, a := range args {
+					if !m.subj[a] {
+						all = false
+					}
+				}
+				if all {
+					for v := range typeSubjectSet(h, q) {
+						m.subj[v] = true
+					}
+					changed = true
+				}
+			}
+		}
+	}
 	m.kf = KindFlow(fn, func(v ssa.Value) bool { return m.subj[v] }, nil)
 	return m
 }
@@ -1326,23 +1370,68 @@ func ruleC16Cycle(c *Ctx) {
 			}
 		}
 	})
+	// the unmark can also be a closure that the marking helper returns and the inference function defers
+	var unmarkVia []*ssa.Defer
+	if unmark == nil {
+		c.eachFam(m.fn, func(i ssa.Instruction) {
+			d, ok := i.(*ssa.Defer)
+			if !ok || d.Call.IsInvoke() {
+				return
+			}
+			for _, src := range append(traceSourcesDeep(d.Call.Value), d.Call.Value) {
+				mc, ok := src.(*ssa.MakeClosure)
+				if !ok {
+					continue
+				}
+				core.EachInstr(mc.Fn.(*ssa.Function), func(j ssa.Instruction) {
+					if call, ok := j.(*ssa.Call); ok && core.CalleeKey(&call.Call) == "builtin.delete" && m.isSeen(call.Call.Args[0]) {
+						unmarkVia = append(unmarkVia, d)
+					}
+				})
+			}
+		})
+	}
 	if test == nil || mark == nil {
 		c.R.Bad(rule, "seen-test-and-mark", c.P.Pos(m.fn.Pos()), "the inference function does not test and mark the type in the cycle set: a recursive type recurses without bound")
 		return
 	}
 	// found -> error
 	rejects := false
-	for _, b := range m.fn.Blocks {
+	for _, b := range test.Parent().Blocks {
 		if ifi, ok := b.Instrs[len(b.Instrs)-1].(*ssa.If); ok && ifi.Cond == test && (blockReturnsError(b.Succs[0]) || blockReturnsErrorDeep(b.Succs[0])) {
 			rejects = true
 		}
 	}
 	c.R.Check(rejects, rule, "seen->error", c.pos(test), "a type already being inferred yields an error", "meeting a type that is already being inferred does not yield an error")
+	// where, in the inference function, the test-and-mark happens: the instruction itself, or the call sites of the helper that holds it
+	var marks []ssa.Instruction
+	if mark.Parent() == m.fn {
+		marks = []ssa.Instruction{mark}
+	} else {
+		for _, site := range c.P.CallIndex().Sites[outermost(mark.Parent())] {
+			if li := liftTo(site, m.fn); li != nil && li.Parent() == m.fn {
+				marks = append(marks, li)
+			}
+		}
+	}
 	// the recursion on named types happens after the mark: every self call is dominated by the test block
-	okDom := true
+	okDom := len(marks) > 0
 	c.eachFam(m.fn, func(i ssa.Instruction) {
 		if call, ok := i.(*ssa.Call); ok && call.Call.StaticCallee() == m.fn {
-			if !test.Block().Dominates(call.Block()) && !nameTestDominates(m, call) {
+			if mark.Parent() == m.fn {
+				if !test.Block().Dominates(call.Block()) && !nameTestDominates(m, call) {
+					okDom = false
+				}
+				return
+			}
+			lc := liftTo(call, m.fn)
+			dominated := false
+			for _, mk := range marks {
+				if lc != nil && core.Dominates(mk, lc) {
+					dominated = true
+				}
+			}
+			if !dominated {
 				okDom = false
 			}
 		}
@@ -1369,7 +1458,59 @@ func ruleC16Cycle(c *Ctx) {
 	}
 	c.R.Check(len(extra) == 0, rule, "mark-every-named-type", c.pos(mark), "every named type is entered in the cycle set", fmt.Sprintf("only some named types are entered in the cycle set (further conditions at %v): a recursive type of another kind (e.g. type Tree map[string]Tree) recurses until the stack overflows", extra))
 	// the mark is removed by a deferred delete registered right after it
-	c.R.Check(unmark != nil && core.Dominates(mark, unmark) && unmark.Block() == mark.Block(), rule, "unmark-deferred", c.pos(mark), "the mark is removed by a deferred delete on every exit", "the cycle mark is not removed by a deferred delete registered with it (explicit deletes miss some exits, e.g. the `return nil, nil` of an ignored invalid type): a type that occurs twice is then reported as a cycle")
+	okUnmark := unmark != nil && core.Dominates(mark, unmark) && unmark.Block() == mark.Block()
+	if unmark == nil && len(unmarkVia) > 0 && mark.Parent() != m.fn {
+		// every place where the marking helper is called is followed by the deferral of the closure it returned;
+		// in between, the function can only leave with the helper's error
+		okUnmark = true
+		for _, mk := range marks {
+			covered := false
+			for _, d := range unmarkVia {
+				ld := liftTo(d, m.fn)
+				if ld == nil || !core.Dominates(mk, ld) {
+					continue
+				}
+				fromThis := false
+				for _, src := range append(traceSources(d.Call.Value), d.Call.Value) {
+					if ex, ok := src.(*ssa.Extract); ok && ex.Tuple == mk.(ssa.Value) {
+						fromThis = true
+					}
+					if src == mk.(ssa.Value) {
+						fromThis = true
+					}
+				}
+				if !fromThis {
+					continue
+				}
+				// exits between the call and the deferral
+				okExits := true
+				seenB := map[*ssa.BasicBlock]bool{}
+				stack := []*ssa.BasicBlock{mk.Block()}
+				for len(stack) > 0 {
+					b := stack[len(stack)-1]
+					stack = stack[:len(stack)-1]
+					if seenB[b] {
+						continue
+					}
+					seenB[b] = true
+					if b == ld.Block() {
+						continue
+					}
+					if _, isRet := b.Instrs[len(b.Instrs)-1].(*ssa.Return); isRet && !blockReturnsErrorLocal(b) {
+						okExits = false
+					}
+					stack = append(stack, b.Succs...)
+				}
+				if okExits {
+					covered = true
+				}
+			}
+			if !covered {
+				okUnmark = false
+			}
+		}
+	}
+	c.R.Check(okUnmark, rule, "unmark-deferred", c.pos(mark), "the mark is removed by a deferred delete on every exit", "the cycle mark is not removed by a deferred delete registered with it (explicit deletes miss some exits, e.g. the `return nil, nil` of an ignored invalid type): a type that occurs twice is then reported as a cycle")
 	_ = plainDeletes
 }
 
